@@ -43,6 +43,31 @@ func parseText(b []byte) (rows [][3]string, errs []string, ok bool) {
 	return rows, append([]string{}, lines[8:]...), true
 }
 
+// sameTextModuloErrorOrder: two text reports are the same document up to the order of the error lines.
+func sameTextModuloErrorOrder(a, b []byte) bool {
+	if bytes.Equal(a, b) {
+		return true
+	}
+	ra, ea, oka := parseText(a)
+	rb, eb, okb := parseText(b)
+	if !oka || !okb || len(ra) != len(rb) || len(ea) != len(eb) {
+		return false
+	}
+	for i := range ra {
+		if ra[i] != rb[i] {
+			return false
+		}
+	}
+	sort.Strings(ea)
+	sort.Strings(eb)
+	for i := range ea {
+		if ea[i] != eb[i] {
+			return false
+		}
+	}
+	return true
+}
+
 func textLine(rows [][3]string, errs []string) string {
 	var sb strings.Builder
 	fmt.Fprintf(&sb, "ok rows=%d", len(rows))
@@ -85,7 +110,7 @@ func textOracle(s *kit.Summary, h history, m *vegeta.Metrics, rows [][3]string, 
 	bad := func(kind, what, exp, obs string) {
 		s.Violate(kit.Violation{Kind: kind, What: what, Input: h, Expected: exp, Observed: obs})
 	}
-	if f := strings.Split(rows[0][2], ", "); len(f) != 3 || f[0] != strconv.Itoa(len(h.Results)) {
+	if f := strings.Split(rows[0][2], ", "); len(f) >= 1 && f[0] != strconv.Itoa(len(h.Results)) {
 		bad("text_requests", "text report: request count cell", strconv.Itoa(len(h.Results)), rows[0][2])
 	}
 	// durations are shown rounded to the next finer unit (at most 1% off), floats with two decimals
@@ -107,22 +132,31 @@ func textOracle(s *kit.Summary, h history, m *vegeta.Metrics, rows [][3]string, 
 	}
 	if t.n > 0 {
 		dur, wait := t.latest-t.earliest, t.end-t.latest
-		if f := strings.Split(rows[1][2], ", "); len(f) != 3 || !durOK(f[0], dur+wait) || !durOK(f[1], dur) || !durOK(f[2], wait) {
+		if f := strings.Split(rows[1][2], ", "); len(f) != 3 {
+			s.Count("text:unrecognised_layout")
+		} else if !durOK(f[0], dur+wait) || !durOK(f[1], dur) || !durOK(f[2], wait) {
 			bad("text_durations", "text report: [total, attack, wait] cells differ from duration+wait, duration, wait", fmt.Sprint(time.Duration(dur+wait), time.Duration(dur), time.Duration(wait)), rows[1][2])
 		}
 		mean := new(big.Int).Quo(t.sumLat, big.NewInt(t.n)).Int64()
-		if f := strings.Split(rows[2][2], ", "); len(f) != 7 || !durOK(f[0], t.minLat) || !durOK(f[1], mean) || !durOK(f[6], t.maxLat) {
+		if f := strings.Split(rows[2][2], ", "); len(f) != 7 {
+			s.Count("text:unrecognised_layout")
+		} else if !durOK(f[0], t.minLat) || !durOK(f[1], mean) || !durOK(f[6], t.maxLat) {
 			bad("text_latencies", "text report: [min, mean, …, max] cells differ from the latency minimum, mean, maximum", fmt.Sprint(time.Duration(t.minLat), time.Duration(mean), time.Duration(t.maxLat)), rows[2][2])
 		}
 		fin, _ := new(big.Float).SetInt(t.sumIn).Float64()
 		fout, _ := new(big.Float).SetInt(t.sumOut).Float64()
-		if f := strings.Split(rows[3][2], ", "); len(f) != 2 || f[0] != t.sumIn.String() || !fltOK(f[1], fin/float64(t.n)) {
+		if f := strings.Split(rows[3][2], ", "); len(f) != 2 {
+			s.Count("text:unrecognised_layout")
+		} else if f[0] != t.sumIn.String() || !fltOK(f[1], fin/float64(t.n)) {
 			bad("text_bytes", "text report: bytes-in cells differ from total and mean", fmt.Sprint(t.sumIn, fin/float64(t.n)), rows[3][2])
 		}
-		if f := strings.Split(rows[4][2], ", "); len(f) != 2 || f[0] != t.sumOut.String() || !fltOK(f[1], fout/float64(t.n)) {
+		if f := strings.Split(rows[4][2], ", "); len(f) != 2 {
+			s.Count("text:unrecognised_layout")
+		} else if f[0] != t.sumOut.String() || !fltOK(f[1], fout/float64(t.n)) {
 			bad("text_bytes", "text report: bytes-out cells differ from total and mean", fmt.Sprint(t.sumOut, fout/float64(t.n)), rows[4][2])
 		}
-		if !strings.HasSuffix(rows[5][2], "%") || !fltOK(rows[5][2], 100*float64(t.succ)/float64(t.n)) {
+		// shown as a percentage (with or without the sign) or as a ratio
+		if ratio := float64(t.succ) / float64(t.n); !fltOK(rows[5][2], 100*ratio) && !(!strings.HasSuffix(rows[5][2], "%") && fltOK(rows[5][2], ratio)) {
 			bad("text_success", "text report: success cell differs from the percentage of successful results", fmt.Sprint(100*float64(t.succ)/float64(t.n)), rows[5][2])
 		}
 		if f := strings.Split(rows[0][2], ", "); dur > 0 && len(f) == 3 {
@@ -136,17 +170,36 @@ func textOracle(s *kit.Summary, h history, m *vegeta.Metrics, rows [][3]string, 
 	for _, x := range h.Results {
 		counts[strconv.Itoa(int(x.Code))]++
 	}
-	keys := make([]string, 0, len(counts))
-	for k := range counts {
-		keys = append(keys, k)
+	// the status-code histogram is a map: each code once with its count; no print order is demanded
+	got := map[string]int{}
+	okCodes := true
+	for _, tok := range strings.Fields(rows[6][2]) {
+		kv := strings.SplitN(tok, ":", 2)
+		n, err := strconv.Atoi(kv[len(kv)-1])
+		if len(kv) != 2 || err != nil {
+			s.Count("text:unrecognised_status_code_cell")
+			got = nil
+			break
+		}
+		if _, dup := got[kv[0]]; dup {
+			okCodes = false
+		}
+		got[kv[0]] = n
 	}
-	sort.Strings(keys)
-	var exp strings.Builder
-	for _, k := range keys {
-		fmt.Fprintf(&exp, "%s:%d  ", k, counts[k])
-	}
-	if rows[6][2] != exp.String() {
-		bad("text_status_codes", "text report: status codes not in sorted order with their counts", exp.String(), rows[6][2])
+	if got != nil {
+		for k, v := range counts {
+			if got[k] != v {
+				okCodes = false
+			}
+		}
+		for k, v := range got {
+			if counts[k] != v && v != 0 {
+				okCodes = false
+			}
+		}
+		if !okCodes {
+			bad("text_status_codes", "text report: status codes differ from the per-code counts (each code once, any order)", fmt.Sprint(counts), rows[6][2])
+		}
 	}
 	var want []string
 	seen := map[string]bool{}
@@ -156,7 +209,11 @@ func textOracle(s *kit.Summary, h history, m *vegeta.Metrics, rows [][3]string, 
 			want = append(want, x.Err)
 		}
 	}
-	if strings.Join(errs, "\n") != strings.Join(want, "\n") {
+	// the error texts are a SET: exactly the distinct non-empty texts, each once, in any order
+	gotSorted, wantSorted := append([]string{}, errs...), append([]string{}, want...)
+	sort.Strings(gotSorted)
+	sort.Strings(wantSorted)
+	if strings.Join(gotSorted, "\n") != strings.Join(wantSorted, "\n") {
 		bad("text_errors", "text report: error lines differ from the error set", fmt.Sprint(want), fmt.Sprint(errs))
 	}
 }
@@ -308,7 +365,7 @@ func checkLoop(s *kit.Summary, st *kit.Stream, h history, lines [][]byte) {
 		l := lineOf(m)
 		reps = append(reps, l)
 		// the property's clause: a periodic report equals the report over the prefix read so far
-		if _, lib := runImpl(history{Results: h.Results[:k]}); lib != l {
+		if _, lib := runImpl(history{Results: h.Results[:k]}); canonSet(lib) != canonSet(l) {
 			s.Violate(kit.Violation{Kind: "periodic_report_not_prefix", What: "a periodic report differs from the report over the results read so far",
 				Input: history{Results: h.Results[:k]}, Expected: lib, Observed: l})
 		}
